@@ -22,7 +22,7 @@ CONSTANTS
   InsSet <- InsSmall
   MinEdits = 0
   Randomised = FALSE
-  DumpMod = 8
+  DumpMod = 11
   NRepl = 17
   RichOnly = FALSE
   MaxRich <- Unlimited
